@@ -38,9 +38,20 @@
 (*  T1  ExpandKey(InitState, <<>>, k) = BlowfishSched("Blowfish", k, <<>>) *)
 (*      (init + expand(k) is ordinary keying);                             *)
 (*  T2  ExpandKey(st, <<0,...,0>> (16 bytes), k) = ExpandKey(st, <<>>, k)  *)
-(*      (a zero salt is no salt).                                           *)
+(*      (a zero salt is no salt).                                          *)
 (***************************************************************************)
 EXTENDS Naturals, Sequences, Bitwise, TLC, Words
+\* Bounded iteration ("for i = 1 to 16", "continue the process") is written with
+\* FoldLeft(Op, x, <<a, b, ..., z>>) = Op(... Op(Op(x, a), b) ..., z) of the community
+\* module SequencesExt.  TLC evaluates it by a Java loop, strictly and in a short
+\* evaluation context; a RECURSIVE operator gives the same values but TLC's context
+\* (a list walked at every reference to a module-level operator, "+" and "%"
+\* included) grows with the recursion depth: measured 4 to 10 times slower.
+LOCAL INSTANCE SequencesExt
+\* the sequence <<lo, lo + 1, ..., hi>>
+Upto(lo, hi) == TLCEval([i \in 1..(hi - lo + 1) |-> lo + i - 1])
+RoundNumbers == Upto(1, 16)
+ChainNumbers == Upto(0, 520)
 
 \* ------------------------------------------------------------ 32-bit words
 W(hi, lo) == <<lo, hi>>
@@ -332,26 +343,16 @@ F(S, x) ==
         c == x[1] \div 256   d == x[1] % 256
     IN Add32(Xor32(Add32(S[1][a + 1], S[2][b + 1]), S[3][c + 1]), S[4][d + 1])
 
-\* Iter(Op, lo, hi, x) = Op(hi, Op(hi - 1, ... Op(lo, x) ...)), lo <= hi.  The index
-\* range is halved so that the recursion depth is logarithmic: TLC's evaluation
-\* context is a list that grows with the nesting depth of operator calls, and
-\* every lookup of a module-level operator walks all of it.
-RECURSIVE Iter(_, _, _, _)
-Iter(Op(_, _), lo, hi, x) ==
-    IF lo = hi THEN Op(lo, x)
-    ELSE LET mid == (lo + hi) \div 2
-         IN Iter(Op, mid + 1, hi, Iter(Op, lo, mid, x))
-
 \* "For i = 1 to 16:  xL = xL XOR Pi;  xR = F(xL) XOR xR;  swap xL and xR.
 \*  Swap xL and xR (undo the last swap).  xR = xR XOR P17.  xL = xL XOR P18."
 \* A 64-bit block is the pair <<xL, xR>> of words; K is the sequence of the 18
 \* subkeys in their order of use.
 Round(K, S, i, x) ==
-    LET l == Xor32(x[1], K[i])
-        r == Xor32(F(S, l), x[2])
-    IN TLCEval(<<r, l>>)
+    LET xl == Xor32(x[1], K[i])
+        xr == Xor32(F(S, xl), x[2])
+    IN TLCEval(<<xr, xl>>)
 Crypt(K, S, blk) ==
-    LET x == Iter(LAMBDA i, y : Round(K, S, i, y), 1, 16, blk)
+    LET x == FoldLeft(LAMBDA y, i : Round(K, S, i, y), blk, RoundNumbers)
     IN TLCEval(<<Xor32(x[2], K[18]), Xor32(x[1], K[17])>>)
 
 EncBlk(P, S, blk) == Crypt(P, S, blk)
@@ -397,8 +398,9 @@ InitState == [p |-> PiP, s |-> PiS, le |-> FALSE]
 \* Schneier's subkey calculation applied to an arbitrary state.  key and salt
 \* are non-empty byte strings of any length (the paper has a 128-bit salt).
 ExpandKey(st, salt, key) ==
-    LET r == Iter(LAMBDA t, x : Chain(salt, t, x), 0, 520,
-                  [p |-> XorKey(st.p, key), s |-> st.s, blk |-> <<Zero32, Zero32>>])
+    LET r == FoldLeft(LAMBDA x, t : Chain(salt, t, x),
+                      [p |-> XorKey(st.p, key), s |-> st.s, blk |-> <<Zero32, Zero32>>],
+                      ChainNumbers)
     IN [p |-> r.p, s |-> r.s, le |-> st.le]
 
 \* ------------------------------------------------- conformance interface
